@@ -13,9 +13,17 @@ Go sources modelled (statement order mirrored):
   constructor input — by the re-packed constructor arguments; `upData` is that string for both
   shapes of the message (`ctor = []`: the bare bytecode, nothing may follow it).
 * util/libcons/consensus.go + x/evm/types/proofs_hash_bytes.go — `VerifyEvidence` over the
-  evidence of all validators (`winnerOf`, built on `Model/Libcons.lean`): proofs are grouped by
-  `sha256(BytesToHash())`, and `TxExecutedProof.BytesToHash` is the serialized transaction FOLLOWED
-  BY the serialized receipt, so the receipt is part of a proof's identity.
+  evidence of all validators (`winnerOfH hp`, built on `Model/Libcons.lean`): proofs are grouped by
+  `sha256(BytesToHash())` — the hash is the PARAMETER `hp`, so that collision-freeness is a stated
+  hypothesis of the theorems (`NoCollOn`) and not a property of the model; the winner is the first
+  proof stored in the winning hash group — and `TxExecutedProof.BytesToHash` is the serialized
+  transaction FOLLOWED BY the serialized receipt, so the receipt is part of a proof's identity.
+  `winnerOf` / `attestEv` / `Op.attestEv` (what the driver runs) use the collision-free naming
+  `idealHash`.
+* the message id inside the call data of `SubmitLogicCall` / `UploadUserSmartContract` is
+  `int64(msg.GetId())`, the id of the QUEUED message (`QMsg.id`), and the valset id inside an
+  `UpdateValset` is that of the Go valset `SetSnapshotOnChain` is then called with: `Action.delivered`
+  takes the queue id and overwrites the corresponding free fields of the ABI-level records.
 * the used-transaction set (`isTxProcessed` / `setTxAsAlreadyProcessed`) is keyed by `tx.Hash()` of
   the DECODED transaction on both sides, so it identifies the remote transaction whatever encoding
   the evidence bytes used (`TxProof.hash` vs `TxProof.enc`).
@@ -100,14 +108,20 @@ structure QMsg where
   sigs : List SignData
 deriving Repr, Inhabited
 
-/-- selector, argument types and argument values `VerifyAgainstTX` packs after the consensus;
-    `none` only for `up`, which is not an ABI call.  (Before /repo commit cab3e325 the two
-    fee-paying actions had no argument list when `Fees == nil`: the Go code panicked.) -/
-def Action.delivered (a : Action) : Option (Bytes × List Ty × List V) :=
+/-- selector, argument types and argument values `VerifyAgainstTX` packs after the consensus for the
+    message stored under the queue id `id`; `none` only for `up`, which is not an ABI call.
+    The message-id argument of the two fee-paying actions is `int64(msg.GetId())` — the id of the
+    QUEUED message, not a field of the action — and the valset id inside the new valset of an
+    update-valset is `int64(m.Valset.ValsetID)`, the same Go value `SetSnapshotOnChain` is called
+    with afterwards.  So the free fields `SLCFields.id`, `USCFields.id` and `UVFields.valsetId` of
+    the action are NOT read here: they are overwritten by `castI64 id` / `castI64 valsetId`.
+    (Before /repo commit cab3e325 the two fee-paying actions had no argument list when
+    `Fees == nil`: the Go code panicked.) -/
+def Action.delivered (a : Action) (id : Nat) : Option (Bytes × List Ty × List V) :=
   match a with
-  | .uv f _ => some (selUpdateValsetD, UV.deliveredTys, UV.deliveredVals f)
-  | .slc f => some (selSubmitLogicCallD, SLC.deliveredTys, SLC.deliveredVals f)
-  | .usc f _ => some (selDeployContractD, USC.deliveredTys, USC.deliveredVals f)
+  | .uv f vid => some (selUpdateValsetD, UV.deliveredTys, UV.deliveredVals { f with valsetId := castI64 vid })
+  | .slc f => some (selSubmitLogicCallD, SLC.deliveredTys, SLC.deliveredVals { f with id := castI64 id })
+  | .usc f _ => some (selDeployContractD, USC.deliveredTys, USC.deliveredVals { f with id := castI64 id })
   | .ch f _ => some (selCompassUpdateBatchD, CH.deliveredTys, CH.deliveredVals f)
   | .up _ _ _ => none
 
@@ -143,7 +157,7 @@ def verifyAgainstTx (m : QMsg) (data : Bytes) : VerifyRes :=
   if isUp m.action then
     (if data = upData m.action then .ok else .notVerified)
   else
-    match m.action.delivered with
+    match m.action.delivered m.id with
     | none => .notVerified   -- unreachable: only `up` has no argument list
     | some d =>
       if tryPrefixes m.valset m.sigs d.1 d.2.1 d.2.2 data m.sigs.length then .ok else .notVerified
@@ -314,9 +328,15 @@ def attest (s : St) (id : Nat) (w : Winner) : St × Res :=
 
 /-! ## evidence of several validators
 
-Each validator's evidence is a proof; proofs are compared as byte strings (`DecidableEq` on the
-model value: transaction AND receipt).  For `Libcons.verifyEvidence` every proof is named by the
-position of its first occurrence in the evidence list ("hashes as naturals"). -/
+Each validator's evidence is a proof.  The Go code groups the proofs by
+`hex(sha256(BytesToHash()))` (a map key) and keeps, per group, the FIRST proof it met
+(`if val.evidence == nil { val.evidence = hashable }`).  The hash is a parameter here
+(`hp : ProofV → Nat`, "sha256 of the proof bytes as a number"); `ProofV` values stand for the
+byte strings (`DecidableEq` on the model value: transaction AND receipt).  `winnerOfH hp` is the
+Go algorithm for an arbitrary hash, collisions included; `winnerOf` instantiates it with the
+collision-free naming "position of the first occurrence in the evidence list" (`idealHash`), which
+is what the compiled driver runs.  `Props/C07.lean` proves the vote theorems for EVERY `hp` under
+the pointwise hypothesis that `hp` does not collide on the proofs actually submitted. -/
 
 inductive ProofV where
   | tx (p : TxProof)            -- `TxExecutedProof{SerializedTX, SerializedReceipt}`
@@ -338,20 +358,41 @@ def firstIdx (l : List ProofV) (a : ProofV) : Nat :=
 /-- evidence as stored on the message: (validator address, proof), in store order -/
 abbrev EvidenceV := Nat × ProofV
 
-/-- the evidence list in the vocabulary of `Model/Libcons.lean` -/
-def toLibcons (evs : List EvidenceV) : List Libcons.Evidence :=
-  evs.map fun e => (e.1, firstIdx (evs.map (·.2)) e.2)
+/-- the evidence list in the vocabulary of `Model/Libcons.lean`: (validator, hash of the proof) -/
+def toLibconsH (hp : ProofV → Nat) (evs : List EvidenceV) : List Libcons.Evidence :=
+  evs.map fun e => (e.1, hp e.2)
 
-/-- `ConsensusChecker.VerifyEvidence(...).Winner`: the proof of the group that holds 2/3 of the
-    snapshot's shares (at most one group can; `Libcons.winner_unique`).  No evidence, no overall
-    quorum or no group quorum: `Winner.none`. -/
-def winnerOf (snap : Libcons.Snapshot) (evs : List EvidenceV) : Winner :=
-  match Libcons.verifyEvidence snap (toLibcons evs) with
+/-- `groups[hash].evidence`: the first proof stored under that hash -/
+def groupProof (hp : ProofV → Nat) (evs : List EvidenceV) (h : Nat) : Option ProofV :=
+  (evs.find? fun e => hp e.2 == h).map (·.2)
+
+/-- `ConsensusChecker.VerifyEvidence(...).Winner` for the proof hash `hp`: the first proof of the
+    hash group that holds 2/3 of the snapshot's shares.  No evidence, no overall quorum or no group
+    quorum: `Winner.none`. -/
+def winnerOfH (hp : ProofV → Nat) (snap : Libcons.Snapshot) (evs : List EvidenceV) : Winner :=
+  match Libcons.verifyEvidence snap (toLibconsH hp evs) with
   | .notAchieved => .none
   | .winnerIn ws =>
     match ws with
     | [] => .none
-    | h :: _ => ((evs.map (·.2)).getD h (ProofV.other 0)).toWinner
+    | h :: _ =>
+      match groupProof hp evs h with
+      | some P => P.toWinner
+      | none => .none          -- unreachable: `h` is the hash of some member
+
+/-- the collision-free hash used by the driver: every proof is named by the position of its first
+    occurrence in the evidence list -/
+def idealHash (evs : List EvidenceV) : ProofV → Nat := firstIdx (evs.map (·.2))
+
+def toLibcons (evs : List EvidenceV) : List Libcons.Evidence := toLibconsH (idealHash evs) evs
+
+def winnerOf (snap : Libcons.Snapshot) (evs : List EvidenceV) : Winner :=
+  winnerOfH (idealHash evs) snap evs
+
+/-- `attestRouter` as the end blocker runs it, for the proof hash `hp`: vote, then route -/
+def attestEvH (hp : ProofV → Nat) (s : St) (id : Nat) (snap : Libcons.Snapshot) (evs : List EvidenceV) :
+    St × Res :=
+  attest s id (winnerOfH hp snap evs)
 
 /-- `attestRouter` as the end blocker runs it: vote, then route -/
 def attestEv (s : St) (id : Nat) (snap : Libcons.Snapshot) (evs : List EvidenceV) : St × Res :=
